@@ -1,2 +1,21 @@
+"""L1 part of C17: Builder contracts (contracts/builder.py)."""
+from ..pyvc.driver import discharge_all
+from ..pyvc.engine import Unsupported
+from ..common import BASE_ASSUMPTIONS_L1
+
+
 def add_to(run):
-    pass
+    from contracts import builder as c
+    obs = []
+    for f in c.ALL:
+        try:
+            fv = f()
+        except Unsupported as e:
+            run.functions[f.__name__] = f"unsupported: {e} (decided by the bounded part only)"
+            run.bounded_notes.append(f"{f.__name__}: outside the pyvc subset on this tree ({e}); bounded part decides")
+            continue
+        run.functions["amaranth_soc." + fv.qualname] = f"proved ({fv.paths} paths, {len(fv.obs)} obligations)"
+        obs += fv.obs
+    run.assumptions += BASE_ASSUMPTIONS_L1 + ["ceil_log2 (amaranth.utils) characterised by axioms (assumed dependency contract)",
+                                              "MemoryMap.add_resource behaves as its C02 contract says (placement, rounding, refusal)"]
+    discharge_all(run, obs, timeout_ms=15000)
